@@ -4,6 +4,7 @@
 # On success copies patch.diff, demo.py, meta.json to /verif/seeded/<seed-id>/ and records what was run.
 wt="$1"; md="$2"; id="$3"
 cd "$wt" || exit 2
+export PYTHONPATH="$wt"
 git checkout -q -- dask_array 2>/dev/null
 /venv/bin/python "$md/demo.py" >/tmp/confirm_$id.clean 2>&1; c=$?
 git apply "$md/patch.diff" || { echo "$id: patch does not apply"; exit 2; }
